@@ -2,5 +2,5 @@
    pipeline as generated: token names, bison's table run by the yacc skeleton model, grammar actions; and the
    scanner generated from tokenizer.l: raw tokens, tokens for the parser, the whole pipeline over it). *)
 Require Import ExtrOcamlBasic ExtrOcamlNativeString.
-Require Import MPSV.Inline.InlineModel MPSV.Inline.InlineLR MPSV.Inline.LexModel MPSV.Inline.LexPipeline MPSV.Inline.InlineYaccModel MPSV.Inline.LexLiteral.
+Require Import MPSV.Inline.InlineModel MPSV.Inline.InlineLR MPSV.Inline.LexModel MPSV.Inline.LexPipeline MPSV.Inline.InlineYaccModel MPSV.Inline.LexLiteralModel.
 Extraction "../ocaml/inline.ml" run_string run_yacc_string run_gen_string raw_tokens_string glex ylex literal_consistent.
